@@ -30,7 +30,7 @@ def differential(ctx, hb, mexe, pid, classify):
     os.makedirs(work, exist_ok=True)
     cases, model = os.path.join(work, "cases.tsv"), os.path.join(work, "model.tsv")
     res, mres = os.path.join(work, "res.tsv"), os.path.join(work, "mres.tsv")
-    rep = {"problems": [], "oracle_bad": [], "known": collections.Counter(), "tie_bad": {"S": [], "J": []},
+    rep = {"problems": [], "oracle_bad": [], "known": collections.Counter(), "tie_bad": {"S": [], "J": [], "I": []},
            "cases": cases, "model": model, "work": work, "res": res}
     corpus = os.path.join(c.ROOT, "corpus", "C01")
     if ctx.replay:
@@ -60,7 +60,7 @@ def differential(ctx, hb, mexe, pid, classify):
     model_line = {f[0]: "\t".join(f) for f in _lines(model)}
     mod = {}
     if mexe:
-        rc, out = c.sh("%s < %s > %s" % (mexe, model, mres), timeout=3000, check=False)
+        rc, out = c.sh("%s c01 < %s > %s" % (mexe, model, mres), timeout=3000, check=False)
         if rc != 0:
             rep["problems"].append(("T", "model driver failed: " + out[-800:]))
         else:
@@ -73,7 +73,7 @@ def differential(ctx, hb, mexe, pid, classify):
     seen = set()
     n = 0
     nontrivial = 0
-    tied = {"S": 0, "J": 0}
+    tied = {"S": 0, "J": 0, "I": 0}
     for r in _lines(res):
         if len(r) < 9:
             continue
@@ -104,8 +104,8 @@ def differential(ctx, hb, mexe, pid, classify):
                 rep["oracle_bad"].append(payload)
         # ---- model ties
         mr = mod.get(r[0])
-        if mr and len(mr) >= 5:
-            for side, mi, ri in (("S", 1, 1), ("J", 3, 3)):
+        if mr and len(mr) >= 11:
+            for side, mi, ri in (("S", 1, 1), ("J", 3, 3), ("I", 9, 1)):
                 mstat[side + ":" + mr[mi]] += 1
                 if mr[mi] == "U":
                     continue
@@ -116,10 +116,12 @@ def differential(ctx, hb, mexe, pid, classify):
                     tg = set(r[6].split(","))
                     if side == "S" and ("unterm32" in tg or "arrcomma" in tg):
                         continue
+                    if side == "I" and "unterm32" in tg:
+                        continue  # the native scanner defect is below the IL
                     p2 = dict(payload)
                     p2["model"] = mr[mi] + " " + mr[mi + 1][:400]
                     p2["real"] = real_st + " " + real_v[:400]
-                    p2["side"] = "sonic vs sonic_bind" if side == "S" else "encoding/json vs std_bind"
+                    p2["side"] = {"S": "sonic vs sonic_bind", "J": "encoding/json vs std_bind", "I": "sonic vs exec (compile ty)"}[side]
                     rep["tie_bad"][side].append(p2)
     rep.update({"n": n, "nontrivial": nontrivial, "dist": dist, "tags": tags, "kinds": kinds, "sizes": szs, "mstat": mstat,
                 "tied": tied, "distinct": len(seen)})
@@ -236,13 +238,14 @@ def report(ctx, pid, rep, problems, known):
         ctx.violation("sonic and encoding/json disagree (%s) on a case that is not a listed finding" % p.get("verdict"), p, True)
     if rep.get("crash_output"):
         ctx.violation("the decoding process crashed", {"output": rep["crash_output"]}, True)
-    tie_bad = rep.get("tie_bad", {"S": [], "J": []})
+    tie_bad = rep.get("tie_bad", {"S": [], "J": [], "I": []})
     struct_bad = rep.get("tie_struct", [])
     if not ctx.violations:
-        if tie_bad["S"]:
-            p = tie_bad["S"][0]
-            ctx.violation("correspondence broken: the real decoder and the model sonic_bind differ (%d cases); no disagreement with encoding/json "
-                          "outside the listed findings was found" % len(tie_bad["S"]), p, False)
+        if tie_bad["S"] or tie_bad.get("I"):
+            which = "S" if tie_bad["S"] else "I"
+            p = tie_bad[which][0]
+            ctx.violation("correspondence broken: the real decoder and the model %s differ (%d cases); no disagreement with encoding/json "
+                          "outside the listed findings was found" % ("sonic_bind" if which == "S" else "exec (compile ty)", len(tie_bad[which])), p, False)
         elif struct_bad:
             ctx.violation("correspondence broken: " + struct_bad[0]["what"], struct_bad[0], False)
         elif tie_bad["J"]:
@@ -252,7 +255,8 @@ def report(ctx, pid, rep, problems, known):
             ctx.violation("; ".join("%s: %s" % p for p in problems)[:3000],
                           {"broken": [p[1] for p in problems], "theorem_file": "coq/theories/Props/%s.v" % pid,
                            "searched": "%d cases against encoding/json" % n}, False)
-    ctx.cov["tie_mismatches"] = {"sonic_vs_model": len(tie_bad["S"]), "std_vs_model": len(tie_bad["J"]), "structural": len(struct_bad)}
+    ctx.cov["tie_mismatches"] = {"sonic_vs_model": len(tie_bad["S"]), "sonic_vs_il_interpreter": len(tie_bad.get("I", [])),
+                                 "std_vs_model": len(tie_bad["J"]), "structural": len(struct_bad)}
 
 
 # ------------------------------------------------------------------------------------------------ C11
@@ -334,7 +338,7 @@ def backends(ctx, hb, classify, mexe=None):
     rep["tied"] = collections.Counter()
     if mexe and os.path.exists(model) and not ctx.replay:
         mres = os.path.join(work, "mres.tsv")
-        rc, out = c.sh("%s < %s > %s" % (mexe, model, mres), timeout=3000, check=False)
+        rc, out = c.sh("%s c11 < %s > %s" % (mexe, model, mres), timeout=3000, check=False)
         if rc != 0:
             rep["problems"].append(("T", "model driver failed: " + out[-800:]))
         else:
